@@ -1,6 +1,6 @@
 """C08 — a function call depends only on its arguments, never on earlier calls."""
 from .. import progen
-from ..progen import I, L, S
+from ..progen import I, L, S, ERRPRINT, ERRITEM
 from ..progcheck import ProgCheck
 
 
@@ -15,7 +15,16 @@ class C08(ProgCheck):
             "locals, locals re-typed between branches, recursion (incl. to the limit of 255 nested calls and one beyond), "
             "mutual recursion, calls failing inside the body or in argument evaluation, overloads by arity, arguments "
             "that call the same function; the printed results of the probe call must equal the model's (which starts every "
-            "call from unset locals); plus seeded random programs with functions. distinct = program text.")
+            "call from unset locals); plus seeded random programs with functions. Family errrec-history: functions that read "
+            "error@1/@2/@3 at entry, after histories of calls whose own `when` clause failed (the record stays in the recycled "
+            "context), recursion (several cached contexts, LIFO order), the same function called in its own argument list, a failing "
+            "argument (context handed back), re-execution of the function statement (cache dropped). Family end-forms: one function "
+            "whose call ends in every way (valueless `return;`, falling off the end, `return null;`, `return <expr>;`, a raise handled inside, "
+            "a raise escaping, break / continue / valueless return / value return inside loops inside the function), histories of 3..6 calls "
+            "mixing the forms, each later call must run its whole body (it prints at entry and at its tail) and return as a fresh call; "
+            "recursion-depth histories (first used at depth d1, then d2, then d1 again, d in 1..256). Family receiver-forms: in-place "
+            "members on NON-storage receivers ((s + null).concat(x), substr(s,0).concat(y), idf(t).put(0,1), idf(s).concat, literals, "
+            "constructor results) followed by a print of the variable that must be unchanged. distinct = program text.")
 
     def gen_cases(self):
         quick = self.tier == "quick"
@@ -92,8 +101,125 @@ class C08(ProgCheck):
             for second in (("fcall", "R", [I(254)]), ("fcall", "R", [I(255)]), ("fcall", "R", [I(256)]), ("fcall", "WR", [I(254)]), ("fcall", "WR", [I(255)]),
                            ("fcall", "WW", [I(253)]), ("fcall", "WW", [I(254)]), ("fcall", "R", [I(3)])):
                 add([rec, wr, ww, guarded(first, "first"), guarded(second, "second"), guarded(first, "third")], {"family": "reclimit-history"})
+        # ---- the error record of recycled function contexts (finding C08.error_record_survives_in_cached_context)
+        STALE = "C08.error_record_survives_in_cached_context"
+        failing_clause = lambda nm, again: ("begin", [("raise", nm)], [(nm, [("raise", again)])])
+        # FS(b): reports the record at entry; when b: a clause fails (record stays); returns error@1
+        fs = fdef("FS", ["B7"], "s", [ERRPRINT("fs"), ("if", [(("var", "B7"), [failing_clause("E1", "E2")])]), ("return", ERRITEM(1))])
+        # FT(i): recursion to depth i, the innermost call fails in a clause: one stale record at the bottom of the cache
+        ft = fdef("FT", ["I7"], "i", [("print", [S("ft"), ("var", "I7"), S(":"), ERRITEM(1), ERRITEM(3)]),
+                                      ("if", [(("bin", "GT", ("var", "I7"), I(0)), [("return", ("fcall", "FT", [("bin", "SUB", ("var", "I7"), I(1))]))]),
+                                              (("bin", "EQ", ("var", "I7"), I(0)), [failing_clause("DIVIDE_BY_ZERO", "E1")])]),
+                                      ("return", I(7))])
+        # FU(s): identity on strings that reports the record (used in its own argument list)
+        fu = fdef("FU", ["S7"], "s", [ERRPRINT("fu"), ("if", [(("bin", "EQ", ("var", "S7"), S("boom")), [failing_clause("E2", "E1")])]),
+                                      ("return", ("bin", "ADD", ("var", "S7"), ERRITEM(1)))])
+        elib = [fs, ft, fu]
+        ecalls = [("fcall", "FS", [L("B:0")]), ("fcall", "FS", [L("B:1")]), ("fcall", "FT", [I(0)]), ("fcall", "FT", [I(1)]), ("fcall", "FT", [I(2)]),
+                  ("fcall", "FT", [I(-1)]), ("fcall", "FU", [S("a")]), ("fcall", "FU", [S("boom")]), ("fcall", "FU", [("fcall", "FU", [S("b")])]),
+                  ("fcall", "FU", [("fcall", "FU", [S("boom")])]), ("fcall", "FU", [("call", "chr", [I(300)])]), ("fcall", "FS", [("bin", "EQ", ("fcall", "FT", [I(1)]), I(7))])]
+        ne = 0
+        # the witness and its variants: the same call before and after a failing one must report the same record
+        for first in ecalls:
+            for mid in ecalls:
+                prog = elib + [("print", [S("first:"), first]) if False else guarded(first, "first:"), guarded(mid, "mid"), guarded(first, "again:")]
+                tag = {"FS": "fs", "FU": "fu"}.get(first[1])
+                add(prog, {"family": "errrec-history", "same": [("first", "again", STALE)]})
+                ne += 1
+        for k in range(150 if quick else 3000):
+            hist = [self.rng.choice(ecalls) for _ in range(self.rng.randint(1, 4))]
+            prog = list(elib) + [guarded(c, "h%d" % i) for i, c in enumerate(hist)]
+            if self.rng.random() < 0.3:
+                # executing the function statement again drops the function's cached contexts
+                prog.insert(len(elib) + self.rng.randint(0, len(hist)), self.rng.choice(elib))
+            add(prog, {"family": "errrec-history"})
+            ne += 1
+        self.stats["errrec_history_cases"] = ne
+        # ---- every way a call can end, then LATER calls of the same function in the recycled context
+        def when(m, body):
+            return (("bin", "EQ", ("var", "I7"), I(m)), body)
+        loop = lambda inner: ("for", "K3", I(1), I(3), None, "auto", [("print", [S("k"), ("var", "K3")]), ("if", [(("bin", "EQ", ("var", "K3"), I(2)), [inner])])])
+        fe = fdef("FE", ["I7"], "?", [
+            ("if", [(("bin", "EQ", ("var", "I7"), I(99)), [("let", "LOC", I(-1))])]),     # registers the local without assigning it
+            ("print", [S("enter"), ("var", "I7"), S(" loc="), ("var", "LOC")]),
+            ("let", "LOC", ("var", "I7")),
+            ("if", [when(0, [("return", None)]),
+                    when(2, [("return", L("N:?0"))]),
+                    when(3, [("return", ("bin", "MUL", ("var", "I7"), I(2)))]),
+                    when(4, [("begin", [("raise", "E1")], [("E1", [("print", [S("handled")])])])]),
+                    when(5, [("raise", "E2")]),
+                    when(6, [loop(("break",))]),
+                    when(7, [loop(("continue",))]),
+                    when(8, [loop(("return", None))]),
+                    when(9, [("let", "W3", I(0)), ("while", ("bin", "LT", ("var", "W3"), I(3)), [("let", "W3", ("bin", "ADD", ("var", "W3"), I(1))),
+                                                                                        ("if", [(("bin", "EQ", ("var", "W3"), I(2)), [("return", ("var", "W3"))])])])]),
+                    when(10, [("begin", [("return", None)], [("OTHERS", [("nop",)])])]),
+                    when(11, [("begin", [("raise", "E1")], [("E1", [("return", None)])])])]),
+            ("print", [S("tail"), ("var", "I7")])])
+        forms = list(range(0, 12))
+        nf = 0
+        for a in forms:                       # complete: every ordered pair, probed a third time
+            for b in forms:
+                add([fe, guarded(("fcall", "FE", [I(a)]), "a"), guarded(("fcall", "FE", [I(b)]), "b"), guarded(("fcall", "FE", [I(a)]), "c")], {"family": "end-forms"})
+                nf += 1
+        for _ in range(200 if quick else 4000):
+            hist = [self.rng.choice(forms) for _ in range(self.rng.randint(3, 6))]
+            add([fe] + [guarded(("fcall", "FE", [I(m)]), "h%d" % i) for i, m in enumerate(hist)], {"family": "end-forms"})
+            nf += 1
+        # the same inside a caller function (the callee's context is recycled across calls made from another function's context)
+        fcaller = fdef("FQ", ["I7", "I8"], "i", [("let", "R1", ("fcall", "FE", [("var", "I7")])), ("print", [S("mid")]), ("let", "R2", ("fcall", "FE", [("var", "I8")])),
+                                                ("print", [S("r"), ("var", "R1"), S(","), ("var", "R2")]), ("return", I(1))])
+        for a in forms:
+            for b in (forms if not quick else forms[::2]):
+                add([fe, fcaller, guarded(("fcall", "FQ", [I(a), I(b)]), "q"), guarded(("fcall", "FE", [I(1)]), "after")], {"family": "end-forms"})
+                nf += 1
+        self.stats["end_forms_cases"] = nf
+        # recursion depth histories: the same function first used at depth d1, then d2, then d1
+        rec2 = fdef("R", ["I7"], "i", [("if", [(("bin", "LE", ("var", "I7"), I(1)), [("return", I(1))])]),
+                                       ("return", ("bin", "ADD", I(1), ("fcall", "R", [("bin", "SUB", ("var", "I7"), I(1))])))])
+        depths = (1, 2, 100, 253, 254, 255, 256)
+        for d1 in depths:
+            for d2 in depths:
+                if quick and (depths.index(d1) + depths.index(d2)) % 2:
+                    continue
+                add([rec2, guarded(("fcall", "R", [I(d1)]), "d1"), guarded(("fcall", "R", [I(d2)]), "d2"), guarded(("fcall", "R", [I(d1)]), "d1again")],
+                    {"family": "depth-history"})
+        # ---- in-place members on NON-storage receivers: they work on a copy, the variable behind is unchanged (repo 876bec0, a40085e)
+        idt = fdef("IDT", ["T"], "?", [("return", ("var", "T"))])
+        nr = 0
+        sv, tv = ("var", "S1"), ("var", "TT")
+        srecv = [("bin", "ADD", sv, L("N:s0")), ("bin", "ADD", sv, S("")), ("call", "substr", [sv, I(0)]), ("call", "upper", [sv]), ("call", "str", [sv]),
+                 S("lit"), L("N:s0"), ("bin", "ADD", L("N:s0"), L("N:s0"))]
+        for rv in srecv:
+            for arg in (S("x"), L("N:s0"), sv):
+                add([("let", "S1", S("ab")), ("print", [S("r:"), ("member", "concat", rv, [arg])]), ("print", [S("s:"), sv])], {"family": "receiver-forms"})
+                add([("let", "S1", S("ab")), ("for", "K", I(1), I(2), None, "auto", [("print", [S("r:"), ("member", "concat", rv, [arg])])]), ("print", [S("s:"), sv])],
+                    {"family": "receiver-forms"})
+                nr += 2
+        trecv = [("call", "tab", [I(2), I(1)]), ("fcall", "IDT", [tv])]
+        for rv in trecv:
+            for m, args in (("put", [I(0), I(5)]), ("insert", [I(0), I(5)]), ("delete", [I(0)]), ("concat", [I(9)])):
+                add([idt, ("let", "TT", ("call", "tab", [I(2), I(1)])), ("print", [S("r:"), ("member", "count", ("member", m, rv, args), [])]),
+                     ("print", [S("t:"), ("member", "count", tv, []), S(" "), ("member", "at", tv, [I(0)])])], {"family": "receiver-forms"})
+                nr += 1
+        # chained in-place members designate the storage of their first receiver: the variable changes at every link (model: `rootVar`)
+        chain = lambda m1, a1, m2, a2: ("member", m2, ("member", m1, tv, a1), a2)
+        links = (("put", [I(0), I(7)]), ("insert", [I(0), I(6)]), ("delete", [I(0)]), ("concat", [I(9)]))
+        for m1, a1 in links:
+            for m2, a2 in links:
+                add([("let", "TT", ("call", "tab", [I(2), I(1)])), ("let", "Y", ("member", "count", chain(m1, a1, m2, a2), [])),
+                     ("print", [S("y:"), ("var", "Y"), S(" t:"), ("member", "count", tv, []), S(" "), ("member", "at", tv, [I(0)])])], {"family": "receiver-forms"})
+                nr += 1
+        add([("let", "S1", S("ab")), ("print", [S("r:"), ("member", "concat", ("member", "concat", sv, [S("x")]), [S("y")])]), ("print", [S("s:"), sv])], {"family": "receiver-forms"})
+        add([idt, ("let", "TT", ("call", "tab", [I(2), I(1)])), ("let", "Y", ("member", "count", ("member", "put", ("member", "put", ("fcall", "IDT", [tv]), [I(0), I(7)]), [I(1), I(8)]), [])),
+             ("print", [S("y:"), ("var", "Y"), S(" t:"), ("member", "at", tv, [I(0)])])], {"family": "receiver-forms"})
+        nr += 2
+        self.stats["receiver_forms_cases"] = nr
         for k in range(300 if quick else 5000):
-            g = progen.Gen(self.rng, nvars=2, funcs=True, errors=0.1)
+            g = progen.Gen(self.rng, nvars=2, funcs=True, errors=0.1, errrec=(0.08 if k % 2 else 0.0), extras=(0.15 if k % 3 else 0.0))
             add(g.program(nstmts=self.rng.randint(3, 7), depth=2), {"family": "random"})
+            for kk, vv in g.stats.items():
+                if kk.startswith(("error-", "handler-reports", "function-clause", "function-reads", "isnull")):
+                    self.stats.setdefault("errrec_random", {})[kk] = self.stats.get("errrec_random", {}).get(kk, 0) + vv
         self.stats["cases"] = n
         return cases
